@@ -181,7 +181,8 @@ fn queries(name: &str, alias: &str) -> Vec<String> {
         c3[l] = if c3[l] == 'q' { 'z' } else { 'q' };
         q.push(c3.iter().collect());
     }
-    q.retain(|s| !s.is_empty() && !s.contains('/') && s != "." && s != ".." && s.len() < 600);
+    // (a near miss that happens to name the other entry of the volume, "src", would find THAT entry)
+    q.retain(|s| !s.is_empty() && !s.contains('/') && s != "." && s != ".." && s.len() < 600 && fold(s) != "SRC");
     q.sort();
     q.dedup();
     q
